@@ -264,6 +264,34 @@ func checkC11(e *Env) {
 		compare(grp, p)
 	})
 
+	// histories: within one process, all seed calls whose arguments have equal NFKD forms
+	// (U+0020- and U+3000-joined spellings among them) must agree
+	histCalls := e.runHistories(drv, "C11", e.pick(24, 300), 3, func(ops []plan.Op, res []plan.Res) {
+		first := map[string]int{}
+		for i := range res {
+			op := &ops[i]
+			if op.Fn != "seed" || res[i].Panic != "" {
+				continue
+			}
+			n, ok := e.NFKD([]string{op.Str(), op.Pass()})
+			if !ok[0] || !ok[1] {
+				continue
+			}
+			key := n[0] + "\x00" + n[1]
+			j, seen := first[key]
+			if !seen {
+				first[key] = i
+				continue
+			}
+			if res[j].Out != res[i].Out {
+				e.Violate(&Violation{What: fmt.Sprintf("within one process MnemonicToSeed(%s, %s) = %s but the equivalent spelling (%s, %s) gave %s", preview(op.Str()), preview(op.Pass()), res[i].Out, preview(ops[j].Str()), preview(ops[j].Pass()), res[j].Out),
+					Ops: ops[:i+1], Expected: map[string]string{"out_hex": res[j].Out}, Observed: res[i], Detail: historyNote})
+				return
+			}
+		}
+	})
+	refChecked.Add("calls_inside_histories", histCalls)
+
 	// known-finding witnesses (D3): exact pairs listed in KNOWN_FINDINGS.txt
 	for _, f := range e.KnownKeys() {
 		kv := parseKey(f.Key)
